@@ -1,4 +1,5 @@
 import Emerge.Gen.Unordered
+import Emerge.Proofs.Dominant
 /-
   C15 — same specification and options give byte-identical output and diagnostics.
 
@@ -21,6 +22,7 @@ open Emerge
 def classified : List ((String × String × String × String) × String) := [
   (("internal/ebnf/parser/spec/spec.go", "DFA", "stateMap", "map"), "a slice indexed by definition (ordered)"),
   (("internal/ebnf/parser/spec/spec.go", "DFA", "stateDefs", "map"), "keys are collected and sorted (sort.Quick by state number) before use"),
+  (("internal/ebnf/parser/spec/spec.go", "dominantAction", "conflict.Actions.All()", "collection"), "the action that beats every other one of the entry is chosen; at most one does, so the order of collection is immaterial (C15_dominant_order_independent)"),
   (("internal/ebnf/parser/spec/symbol_table.go", "orderedTerminals", "t.terminals.table.All()", "collection"), "collected, then sorted by grammar.CmpTerminal"),
   (("internal/ebnf/parser/spec/symbol_table.go", "Definitions", "t.terminals.table.All()", "collection"), "collected, then sorted by a total order (kind, length, name)"),
   (("internal/ebnf/parser/spec/symbol_table.go", "Terminals", "t.terminals.table.All()", "collection"), "added to a set"),
@@ -117,7 +119,20 @@ theorem C15_finals_order_independent (owner : Nat → Option String) {keys₁ ke
     assign owner keys₁ = assign owner keys₂ := by
   simp only [assign, C15_sort_perm h]
 
+/-! ### the action that dominates a table entry does not depend on the order of collection -/
+
+/-- **Order independence of conflict resolution** (the repair c31491e): if "takes precedence over" is asymmetric —
+    as the precedence comparison is — then the entry's actions collected in any two orders yield the same choice
+    (or, in both orders, none). -/
+theorem C15_dominant_order_independent {α} [DecidableEq α] (beats : α → α → Bool)
+    (hasym : ∀ x y, beats x y = true → beats y x = true → False)
+    {l₁ l₂ : List α} (h : l₁.Perm l₂) : Dominant.dominant beats l₁ = Dominant.dominant beats l₂ :=
+  Dominant.dominant_perm beats hasym h
+
 /-- Non-vacuity -/
+example : Dominant.dominant (fun x y : Nat => decide (x = 0 ∧ y ≠ 0)) [1, 2, 0] = some 0
+    ∧ Dominant.dominant (fun x y : Nat => decide (x = 0 ∧ y ≠ 0)) [0, 1, 2] = some 0
+    ∧ Dominant.dominant (fun x y : Nat => decide (x = 0 ∧ y ≠ 0)) [1, 2] = none := by decide
 example : sort [5, 1, 4, 1] = [1, 1, 4, 5] := by decide
 example : assign (fun s => if s % 2 = 0 then some "EVEN" else some "ODD") [3, 2, 1, 4] = [("ODD", [1, 3]), ("EVEN", [2, 4])] := by decide
 
